@@ -87,7 +87,7 @@ theorem delEntry_cases {e : Option Value} (h : DelEntry e) :
 /-- (a) `Set(key, val)` on the struct or Go map at `path`, when it succeeds, changes exactly that entry
 of exactly that container, as the library reads the root before and after -/
 theorem set_changes_exactly_that_entry (t : GoType) (root : GoVal) (path : List Step) (key : String)
-    (val : Value) (root' : GoVal) (ht : GoVal.hasType t root = true)
+    (val : Value) (root' : GoVal) (ht : GoVal.hasTypeB (2 ^ 64) t root = true)
     (hs : goSetAt t root path key val = .ok root') :
     ∃ R m m', reflectV t root = some R ∧ R.at path = some (.map m) ∧
       reflectV t root' = some (R.replaceAt path (.map m')) ∧
@@ -95,7 +95,7 @@ theorem set_changes_exactly_that_entry (t : GoType) (root : GoVal) (path : List 
       SetEntry val (lookupField key m') ∧
       (val ≠ .null → lookupField key m' = some val ∨
         (lookupField key m' = none ∧ val.isEmptyGeneric = true)) := by
-  obtain ⟨R, hR⟩ := Option.isSome_iff_exists.1 (reflectV_total root t ht)
+  obtain ⟨R, hR⟩ := Option.isSome_iff_exists.1 (reflectV_total (2 ^ 64) (Int.le_refl _) root t ht)
   obtain ⟨tgt, cv', _, hf, hrest⟩ := modifyAt_frame _ path t root true false root' hs
   obtain ⟨⟨c, hc1, hc2⟩, hrep⟩ := hrest R hR
   obtain ⟨m, m', rfl, hm', hspec, hemp⟩ := localOp_spec key (.set val) tgt cv' hf c hc1
@@ -108,7 +108,7 @@ theorem set_changes_exactly_that_entry (t : GoType) (root : GoVal) (path : List 
 exactly that container; when a Go map becomes empty directly under an omitempty struct field its entry
 may disappear from the parent (second alternative), never otherwise (last clause) -/
 theorem delete_changes_exactly_that_entry (t : GoType) (root : GoVal) (path : List Step) (key : String)
-    (root' : GoVal) (ht : GoVal.hasType t root = true)
+    (root' : GoVal) (ht : GoVal.hasTypeB (2 ^ 64) t root = true)
     (hs : goDeleteAt t root path key = .ok root') :
     ∃ R R' m m', reflectV t root = some R ∧ R.at path = some (.map m) ∧
       reflectV t root' = some R' ∧
@@ -116,7 +116,7 @@ theorem delete_changes_exactly_that_entry (t : GoType) (root : GoVal) (path : Li
       ((m' = [] → m = []) → R' = R.replaceAt path (.map m')) ∧
       (∀ k', k' ≠ key → lookupField k' m' = lookupField k' m) ∧
       DelEntry (lookupField key m') := by
-  obtain ⟨R, hR⟩ := Option.isSome_iff_exists.1 (reflectV_total root t ht)
+  obtain ⟨R, hR⟩ := Option.isSome_iff_exists.1 (reflectV_total (2 ^ 64) (Int.le_refl _) root t ht)
   obtain ⟨tgt, cv', hres, hf, hrest⟩ := modifyAt_frame _ path t root true false root' hs
   obtain ⟨tgt2, cv2, hres2, hf2, hrest2⟩ := modifyAt_frame_any _ path t root true false root' hs
   rw [hres] at hres2
@@ -155,16 +155,19 @@ theorem delete_in_struct_replaces (t : GoType) (root : GoVal) (path : List Step)
 
 /-! ### the Go data stays well typed -/
 
-/-- after a successful `Set` the root is still a value of its Go type (so the library can read it) -/
-theorem set_preserves_type (t : GoType) (root : GoVal) (path : List Step) (key : String) (val : Value)
-    (root' : GoVal) (ht : GoVal.hasType t root = true) (hs : goSetAt t root path key val = .ok root') :
-    GoVal.hasType t root' = true :=
-  modifyAt_typed key (.set val) path t root true false root' hs ht
+/-- after a successful `Set` the root is still a value of its Go type, with every uint below the same
+bound `ub` (`2^64`: the range in which the library can read it) -/
+theorem set_preserves_type (ub : Int) (hub : 0 < ub) (t : GoType) (root : GoVal) (path : List Step)
+    (key : String) (val : Value) (root' : GoVal) (ht : GoVal.hasTypeB ub t root = true)
+    (hs : goSetAt t root path key val = .ok root') :
+    GoVal.hasTypeB ub t root' = true :=
+  modifyAt_typed ub hub key (.set val) path t root true false root' hs ht
 
-theorem delete_preserves_type (t : GoType) (root : GoVal) (path : List Step) (key : String)
-    (root' : GoVal) (ht : GoVal.hasType t root = true) (hs : goDeleteAt t root path key = .ok root') :
-    GoVal.hasType t root' = true :=
-  modifyAt_typed key .del path t root true false root' hs ht
+theorem delete_preserves_type (ub : Int) (hub : 0 < ub) (t : GoType) (root : GoVal) (path : List Step)
+    (key : String) (root' : GoVal) (ht : GoVal.hasTypeB ub t root = true)
+    (hs : goDeleteAt t root path key = .ok root') :
+    GoVal.hasTypeB ub t root' = true :=
+  modifyAt_typed ub hub key .del path t root true false root' hs ht
 
 /-! ### what `replaceAt` leaves alone -/
 
@@ -668,7 +671,7 @@ open SetEx in
 example :
     readOk mapT (goSetAt mapT mapV [.key "k"] "x" (.int 5)) =
       some (.map [("k", .map [("x", .int 5), ("z", .str "z")]), ("o", .map [("x", .int 2)])]) ∧
-    GoVal.hasType mapT mapV = true ∧
+    GoVal.hasTypeB (2 ^ 64) mapT mapV = true ∧
     ∃ root', goSetAt mapT mapV [.key "k"] "x" (.int 5) = .ok root' ∧
       ∃ R m m', reflectV mapT mapV = some R ∧ R.at [.key "k"] = some (.map m) ∧
         reflectV mapT root' = some (R.replaceAt [.key "k"] (.map m')) ∧
@@ -717,7 +720,7 @@ field makes it read null; the theorem applies -/
 example :
     (readOk outT (goDeleteAt outT outV [.key "a"] "z")).bind (·.at [.key "a"]) = some (.map [("x", .int 1)]) ∧
     (readOk outT (goDeleteAt outT outV [] "p")).bind (·.at [.key "p"]) = some .null ∧
-    GoVal.hasType outT outV = true ∧
+    GoVal.hasTypeB (2 ^ 64) outT outV = true ∧
     ∃ root', goDeleteAt outT outV [.key "a"] "z" = .ok root' ∧
       ∃ R R' m m', reflectV outT outV = some R ∧ R.at [.key "a"] = some (.map m) ∧
         reflectV outT root' = some R' ∧
